@@ -391,13 +391,13 @@ harness!(none, 24, c09_count_protein_n2_w2, count_body2::<Protein, 2>());
 harness!(none, 8, c09_count_unequal, unequal_body());
 //@ C09 quick 800 to_weight + to_scoring (one-step == two-step) + bases 10 and 3, 1 row, counts in {0,1}, pseudocount 0.5, symbolic background k/8
 log_harness!(8, c09_weight_score_small_m1, weight_score_small_body::<1>());
-//@ C09 quick 800 to_freq: 1 row, counts <= 7, pseudocount vector k/4 (k <= 4) and scalar pseudocount
+//@ C09 extended 7200 to_freq: 1 row, counts <= 7, pseudocount vector k/4 (k <= 4) and scalar pseudocount
 harness!(none, 8, c09_freq_m1, freq_body::<1>());
-//@ C09 thorough 10800 to_freq: 2 rows
+//@ C09 extended 10800 to_freq: 2 rows
 harness!(none, 8, c09_freq_m2, freq_body::<2>());
 //@ C09 quick 800 FrequencyMatrix::new accepts exactly the rows within 0.01 of one (lattice k/64), 2 rows
 harness!(none, 8, c09_freq_validation_m2, freq_validation_body::<2>());
-//@ C09 thorough 10800 to_weight + to_scoring (one-step == two-step) + bases 10 and 3, 1 row, symbolic counts / pseudocount / background
+//@ C09 extended 10800 to_weight + to_scoring (one-step == two-step) + bases 10 and 3, 1 row, symbolic counts / pseudocount / background
 log_harness!(8, c09_weight_score_m1, weight_score_body::<1>());
 //@ C09 quick 800 WeightMatrix::rescale, symbolic old/new backgrounds
 log_harness!(8, c09_rescale, rescale_body());
@@ -409,9 +409,9 @@ harness!(none, 8, c09_background_new, background_new_body());
 harness!(none, 8, c09_background_counts, background_counts_body());
 //@ C09 quick 800 Background::from_sequence (3 symbolic symbols, wildcard counted or not)
 harness!(none, 8, c09_background_sequence, background_sequence_body());
-//@ C09 thorough 7200 weight/score conversions, 2 rows
+//@ C09 extended 7200 weight/score conversions, 2 rows
 log_harness!(8, c09_weight_score_m2, weight_score_body::<2>());
-//@ C09 thorough 3600 min/max score bounds, 3 rows
+//@ C09 thorough 3642 min/max score bounds, 3 rows
 harness!(none, 8, c09_minmax_m3, minmax_body::<3>());
-//@ C09 thorough 3600 CountMatrix::from_sequences, DNA, 3 sequences x 3 symbols
+//@ C09 quick 800 CountMatrix::from_sequences, DNA, 3 sequences x 3 symbols
 harness!(none, 8, c09_count_dna_n3_w3, count_body3::<Dna, 3>());
